@@ -50,7 +50,7 @@ def reccut_stage(ctx, cov):
     cov["ttl_recovery_cut_histogram"] = {k: v for k, v in kinds.items() if k.startswith("reccut")}
 
 MODULE = "Feox.Props.C04W"
-THEOREMS = ['Feox.Fmt.journal_clear_after_replay_slot1', 'Feox.Fmt.journal_clear_after_replay_slot0', 'Feox.Fmt.replayIo_low_blocks', 'Feox.Fmt.not_blank_of_signature', 'Feox.Fmt.reopen_after_crashed_open', 'Feox.Fmt.replayIo_keeps_metadata', 'Feox.Fmt.crashed_open_restores_clean_rep', 'Feox.C04.open_of_clean_device_is_pure', 'Feox.Fmt.recover_clean_image', 'Feox.Fmt.scan_clean_retired', 'Feox.C04.loser_retirement_invisible_on_bytes', 'Feox.Fmt.fold_filter_same', 'Feox.Fmt.winner_filter_same', 'Feox.C04.recovery_retirement_restartable', 'Feox.C04.expired_first_resurrects', 'Feox.C04.recovery_restartable_later', 'Feox.C04.drop_expired_before_selection_resurrects', 'Feox.Proto.Gens.winner_filter_of_winners_kept', 'Feox.Proto.Gens.exposed_filter_of_single', 'Feox.C04.replay_restartable', 'Feox.C04.replay_idempotent', 'Feox.C04.repairs_touch_no_live', 'Feox.C04.loser_retirement_restartable', 'Feox.C04.winner_depends_on_disk_only', 'Feox.Proto.maskRun_idem']
+THEOREMS = ['Feox.Fmt.crashed_open_twice_slot0', 'Feox.Fmt.crashed_open_twice_slot1', 'Feox.Fmt.journal_clear_after_replay_slot1', 'Feox.Fmt.journal_clear_after_replay_slot0', 'Feox.Fmt.replayIo_low_blocks', 'Feox.Fmt.not_blank_of_signature', 'Feox.Fmt.reopen_after_crashed_open', 'Feox.Fmt.replayIo_keeps_metadata', 'Feox.Fmt.crashed_open_restores_clean_rep', 'Feox.C04.open_of_clean_device_is_pure', 'Feox.Fmt.recover_clean_image', 'Feox.Fmt.scan_clean_retired', 'Feox.C04.loser_retirement_invisible_on_bytes', 'Feox.Fmt.fold_filter_same', 'Feox.Fmt.winner_filter_same', 'Feox.C04.recovery_retirement_restartable', 'Feox.C04.expired_first_resurrects', 'Feox.C04.recovery_restartable_later', 'Feox.C04.drop_expired_before_selection_resurrects', 'Feox.Proto.Gens.winner_filter_of_winners_kept', 'Feox.Proto.Gens.exposed_filter_of_single', 'Feox.C04.replay_restartable', 'Feox.C04.replay_idempotent', 'Feox.C04.repairs_touch_no_live', 'Feox.C04.loser_retirement_restartable', 'Feox.C04.winner_depends_on_disk_only', 'Feox.Proto.maskRun_idem']
 
 
 def run(ctx):
